@@ -4,7 +4,7 @@
    src/parser/Tokenizer.cc (skipRequired, throwing prefix) it calls, over list N.
    Executable definitions only.  Exceptions are values: InsufficientInput = Insuf,
    TextException = Bad <which throw site>. *)
-Require Import SquidV.Bytes SquidV.TokModel.
+Require Import SquidV.Bytes SquidV.TokModel SquidV.Incremental.
 Require Import SquidV.gen.CharSets_gen.
 Local Open Scope N_scope.
 
@@ -342,3 +342,32 @@ Fixpoint run (relaxed : bool) (st : pstate) (inBuf : bytes) (out : bytes)
 
 Definition run_chunked (relaxed : bool) (sched : list (bytes * N)) : run_res :=
   run relaxed init_state [] [] [] sched.
+
+(* ---------- one parse() call as the callers classify it, for Incremental.v ----------
+   Output space that never fills (http.cc gives every call a fresh MemBuf whose max capacity exceeds any
+   SBuf): potentialSpaceSize() = ample >= SBuf::npos.  The decoded bytes handed to the caller so far
+   are carried in the state, so that outcomes of the whole read loop can be compared. *)
+Definition ample : N := npos.
+Record dstate := { d_p : pstate; d_out : bytes }.
+Inductive dbad :=
+| BThrow (e : err) (out : bytes)      (* exception; out = everything decoded before it *)
+| BTooBig (out : bytes)               (* parse()==false with !needsMoreData(): trailer section over the limit *)
+| BFuel.
+Definition dres := Incremental.res dstate bytes dbad.
+
+Definition step (relaxed : bool) (s : dstate) (b : bytes) : dres :=
+  match parse relaxed ample (d_p s) b with
+  | PRet true _ rem o => Incremental.Done (d_out s ++ o) rem                   (* Done body rest *)
+  | PRet false st' rem o =>
+      match p_stage st' with
+      | StDone => Incremental.Bad (BTooBig (d_out s ++ o))
+      | _ => Incremental.More {| d_p := st'; d_out := d_out s ++ o |} rem     (* keep = remaining() *)
+      end
+  | PThrow e o => Incremental.Bad (BThrow e (d_out s ++ o))
+  | PFuel => Incremental.Bad BFuel
+  end.
+
+Definition dstate0 : dstate := {| d_p := init_state; d_out := [] |}.
+Definition decode_segments (relaxed : bool) (segments : list bytes) : dres :=
+  Incremental.drive dstate bytes dbad (step relaxed) dstate0 [] segments.
+Definition decode_whole (relaxed : bool) (input : bytes) : dres := step relaxed dstate0 input.
